@@ -206,6 +206,12 @@ def c07_1(cx):
     cx.skipped_only_if(u, ng, [CallIs(r"^tracked_struct::Configuration::update_fields$", False), Cmp(r"OptionalAtomicRevision::load\(", "==", r"Option::Some\{0: zalsa::Zalsa::current_revision\(\$2\)\}"), Cmp(r"^id::Id::generation\(\$3\)$", "==", r"(:|=)4294967295$")],
                         "Ok(id) without a generation bump only if identity fields did not change (or the struct was already updated this revision)",
                         exits=[s.bb for s in cx.ret_sites(u, "Ok")])
+    # the id handed back after an identity change IS the bumped one (a shadowing `let id = ..` inside the branch
+    # bumps nothing: the creator keeps the old id, is backdated, and readers of identity fields stay stale)
+    for s in cx.ret_sites(u, "Ok"):
+        if u.reaches(ng, s):
+            o = u._origin_def(s, "assign", s.node(), 0, None, ())
+            cx.flow(u, o, [r"id::Id::next_generation\((\$3|rec)\)"], [r"^Result::Ok\{0: \$3\}$"], "after an identity change update returns the next-generation id", s)
     # generation overflow => Err(fields)
     for s in cx.ret_sites(u, "Err"):
         cx.only_if(u, s, Cmp(r"^id::Id::generation\(\$3\)$", "==", r"(:|=)4294967295$"), "update is refused only on generation overflow")
